@@ -2318,8 +2318,12 @@ class SourceCatalog:
             warnings.simplefilter('ignore', RuntimeWarning)
             covar_det = np.linalg.det(covar)
 
-            # covariance should be positive semidefinite
-            idx = np.where(covar_det < 0)[0]
+            # covariance should be positive semidefinite; for infinitely
+            # thin sources the determinant is zero and its computed
+            # value can be negative at the level of rounding errors,
+            # which must not be mistaken for an invalid matrix
+            tol = 1.0e-12 * np.abs(covar[:, 0, 0] * covar[:, 1, 1])
+            idx = np.where(covar_det < -tol)[0]
             covar[idx] = np.array([[np.nan, np.nan], [np.nan, np.nan]])
 
             idx = np.where(covar_det < delta2)[0]
